@@ -429,3 +429,84 @@ add('FFTS',
     Rule('X-FFTS', 'use rayon::prelude::*;', '', stmt_start=True),
     Rule('X-FFTS', 'oo.par_chunks_exact_mut($s:e).for_each($c:e);', 'fft_chunks(&mut o, $s, &self.fft);', stmt_start=True),
     Rule('X-FFTS', 'oo.chunks_exact_mut($s:e).for_each($c:e);', 'fft_chunks(&mut o, $s, &self.fft);', stmt_start=True))
+
+# X-XPAND (unit syncx): rustc's -Zunpretty=expanded output of the derive macro -- absolute paths, the lowered assert_ne!,
+# the `[..].iter().fold(init, min)` clamp, empty-slice literals
+_FOLD = '.iter().fold($init:e, |min, &x| min.min(x))'
+add('XPAND',
+    *[Rule('X-XPAND', p, r) for p, r in (
+        ('rustradio::stream::', ''), ('rustradio::block::', ''), ('rustradio::Result', 'Result'),
+        ('crate::stream::', ''), ('crate::block::', ''), ('crate::Result', 'Result'),
+        ('std::borrow::Cow', 'Cow'))],
+    Rule('X-XPAND', 'match (&($a:e), &($b:e)) { (left_val, right_val) => { if *left_val == *right_val $body:b } };',
+         'if ($a) == ($b) { reach_panic(); }'),
+    Rule('X-XPAND', '[$a:e, $b:e, $c:e]' + _FOLD, 'fold_min_3($init, $a, $b, $c)'),
+    Rule('X-XPAND', '[$a:e, $b:e]' + _FOLD, 'fold_min_2($init, $a, $b)'),
+    Rule('X-XPAND', '[$a:e]' + _FOLD, 'fold_min_1($init, $a)'),
+    Rule('X-XPAND', '&[]', 'no_tags()'),
+    Rule('X-XPAND', '$x:i.into()', '$x.into_shim()'),
+    Rule('X-XPAND', '$t:i::default()', 'default_of::<$t>()'),
+    Rule('X-XPAND', 'new<$g:i: Into<$t:t>>', 'new<$g: IntoShim<$t>>'))
+
+# X-SYNCLOOP: the generated sync loop is a lazy iterator pipeline
+#     let it = A.iter().take(n).zip(B.iter())...enumerate().map(|(pos, PAT)| BODY);
+#     for ((X_sample, ..), X, ..) in izip!(it, X.slice().iter_mut(), ..) { (*X, ..) = (X_sample, ..); }
+# which is the loop `for pos in 0..min(n, A.len(), B.len().., X.len()..)`: take(n) bounds the first iterator, every
+# zip (izip! is nested zips) ends with its shorter side, enumerate counts from 0, and the closure body runs once per
+# element, in order, because `for` pulls one element at a time.  The rule is built from the stream names found in the
+# function text; any other shape does not match and the unit is undecided.
+add('SYNCLOOP', Rule('X-SYNCLOOP', '__placeholder_never_matches__', ''))
+
+
+def sync_rules(text):
+    from rtok import tokenize
+    toks = [t.text for t in tokenize(text)]
+    ins, outs = [], []
+    for i in range(len(toks) - 9):
+        if toks[i] == 'let' and toks[i + 2:i + 5] == ['=', 'self', '.'] and toks[i + 5] == toks[i + 1] \
+                and toks[i + 6:i + 8] == ['.', 'read_buf']:
+            ins.append(toks[i + 1])
+        if toks[i] == 'let' and toks[i + 1] == 'mut' and toks[i + 3:i + 6] == ['=', 'self', '.'] \
+                and toks[i + 6] == toks[i + 2] and toks[i + 7:i + 9] == ['.', 'write_buf']:
+            outs.append(toks[i + 2])
+    if not ins or not outs or 'it' not in toks:
+        return []
+    zp = '::itertools::__std_iter::'
+    chain = '%s.iter().take(n)' % ins[0] + ''.join('.zip(%s.iter())' % b for b in ins[1:])
+    pat = ins[0]
+    for b in ins[1:]:
+        pat = '(%s, %s)' % (pat, b)
+    p1 = 'let it = %s.enumerate().map(|(pos, %s)| $body:b);' % (chain, pat)
+    samples = ', '.join('%s_sample' % o for o in outs)
+    if len(outs) == 1:
+        o = outs[0]
+        p2 = ('for ((%s_sample), %s) in %sIterator::zip(%sIntoIterator::into_iter(it), %s.slice().iter_mut()) '
+              '{ (*%s) = (%s_sample); }' % (o, o, zp, zp, o, o, o))
+    else:
+        zips = ' '.join('let iter = %sIterator::zip(iter, %s.slice().iter_mut());' % (zp, o) for o in outs)
+        p2 = ('for ((%s), %s) in { let iter = %sIntoIterator::into_iter(it); %s %sIterator::map(iter, $flat:e) } '
+              '{ (%s) = (%s); }' % (samples, ', '.join(outs), zp, zips, zp, ', '.join('*' + o for o in outs), samples))
+    steps = 'n'
+    for x in ins + outs:
+        steps = 'min_usize(%s, %s.len())' % (steps, x)
+    binds = ' '.join('let %s = %s.get_ref(pos);' % (a, a) for a in ins)
+    sets = ' '.join('%s.set(pos, %s_sample);' % (o, o) for o in outs)
+    lhs = '%s_sample' % outs[0] if len(outs) == 1 else '(%s)' % samples
+    repl = ('let __steps = %s; let mut pos: usize = 0;\nwhile pos < __steps {\nlet %s = { %s $body };\n%s\npos += 1;\n}'
+            % (steps, lhs, binds, sets))
+    out = [Rule('X-SYNCLOOP', p1 + ' ' + p2, repl)]
+    for a in ins:
+        out.append(Rule('X-SYNCLOOP', '&%s_tag' % a, '%s_tag.as_slice()' % a))
+    for a in ins:
+        out.append(Rule('X-SYNCLOOP',
+                        'let %s_tag: Vec<_> = %s_tag.iter().filter(|t| t.pos() == pos).map(|t| Tag::new(0, t.key().to_string(), t.val().clone())).collect();' % (a, a),
+                        'let %s_tag: Vec<Tag> = tags_at(&%s_tag, pos);' % (a, a)))
+    out.append(Rule('X-SYNCLOOP', 'for tag in ts.iter() $b:b',
+                    'let __ts = ts.as_slice(); let mut __i: usize = 0; while __i < __ts.len() { let tag = &__ts[__i]; $b __i += 1; }'))
+    return out
+
+
+def apply_for_scan(rules, text):
+    """Apply rules to a throw-away copy (sync_rules reads stream names from path-stripped text)."""
+    from rewrite import apply_rules
+    return apply_rules(rules, text, 1, [], 'scan')[0]
